@@ -28,7 +28,7 @@ RULE = (
     ">= 2 histories, or a file with >= 3 digest lines carrying >= 2 different actions; distinct by canonical scenario hash."
 )
 ASSUMPTIONS = ["names contain no line breaks (control characters are outside the domain)"]
-BUDGET = {"quick": (220, 4), "thorough": (32000, 16)}
+BUDGET = {"quick": (220, 4), "thorough": (20000, 16)}
 REQUIRED = ["nested", "multi_action_file", "no_history", "sf_noroot", "sf_root", "sf_relative", "deep_nesting", "renamed_file", "bulk_history", "symlinked_file", "sf_multi_noroot", "sf_multi_root", "no_own_history_but_below", "verbose", "sf_verbose", "root_relative", "read_in_other_zone"]
 
 CFG = {
